@@ -7,7 +7,7 @@
 //	N n cnt (name idx)* raw ; name|-1                 decode of an enum signal
 //	R k s n ; minBits maxBits                         type range (k: i,d)
 //	S v ; r        V n ; r                            calcSizeFromValue / calcValueFromSize
-//	E op* ; (ok:size:max)*                            enum history (A:name:idx R:name M:min)
+//	E op* ; (ok:size:max)*                            enum history (A:name:idx R:name M:min U:name:idx C)
 //	X count gsize ; sel size                          multiplexer selector / total size
 package main
 
@@ -483,7 +483,7 @@ func genEnumHistories(rc *recorder, r *rng, n int) {
 		bad := ""
 		for i := 0; i < nops; i++ {
 			ok := true
-			switch k := r.below(10); {
+			switch k := r.below(13); {
 			case k < 6:
 				nm, idx := r.below(8), pickIdx(r)
 				ops = append(ops, fmt.Sprintf("A:%d:%d", nm, idx))
@@ -505,14 +505,47 @@ func genEnumHistories(rc *recorder, r *rng, n int) {
 				} else {
 					delete(ids, nm)
 				}
+			case k == 8 || k == 9:
+				// UpdateIndex: up, down (incl. lowering the current maximum), onto a used index
+				nm := r.below(8)
+				idx := pickIdx(r)
+				if r.below(3) == 0 && e.MaxIndex() > 0 {
+					idx = r.below(e.MaxIndex()) // below the current maximum
+				}
+				if r.below(2) == 0 { // prefer the holder of the maximum
+					for n2, id := range ids {
+						if v, err := e.GetValue(id); err == nil && v.Index() == e.MaxIndex() {
+							nm = n2
+						}
+					}
+				}
+				ops = append(ops, fmt.Sprintf("U:%d:%d", nm, idx))
+				id, have := ids[nm]
+				if !have {
+					ok = false
+				} else if v, err := e.GetValue(id); err != nil {
+					ok = false
+				} else if err := v.UpdateIndex(idx); err != nil {
+					ok = false
+				}
+			case k == 10:
+				ops = append(ops, "C")
+				e.RemoveAllValues()
+				ids = map[int]acmelib.EntityID{}
 			default:
 				m := []int{1, 1, 2, 3, 4, 5, 8, 12, 16, 32, 63, 64, 0, -1}[r.below(14)]
 				ops = append(ops, fmt.Sprintf("M:%d", m))
 				e.SetMinSize(m)
 			}
 			obs = append(obs, fmt.Sprintf("%d:%d:%d", b2i(ok), e.GetSize(), e.MaxIndex()))
-			if exp := expectEnumSize(e); exp != e.GetSize() && bad == "" {
-				bad = fmt.Sprintf("after %s: GetSize %d, smallest width for the largest index (min size %d) is %d", strings.Join(ops, " "), e.GetSize(), e.MinSize(), exp)
+			realMax := 0
+			for _, v := range e.Values() {
+				if v.Index() > realMax {
+					realMax = v.Index()
+				}
+			}
+			if exp := expectEnumSize(e); (exp != e.GetSize() || realMax != e.MaxIndex()) && bad == "" {
+				bad = fmt.Sprintf("after %s: GetSize %d MaxIndex %d; largest index %d, smallest width for it (min size %d) is %d", strings.Join(ops, " "), e.GetSize(), e.MaxIndex(), realMax, e.MinSize(), exp)
 			}
 		}
 		line := rc.emit("enum-history", nops >= 3, "E "+strings.Join(ops, " "), strings.Join(obs, " "))
